@@ -12,7 +12,7 @@ RULE = ("programs biased to textually identical gate statements in different sco
         "is inconclusive). non-trivial = program has a name collision or a twin; distinct = S-expression")
 ASSUMPTIONS = ["lexical binding rules as implemented in core_from_sx: parameters shadow header names inside the macro body only"]
 TIERS = {"quick": {"shards": 8, "budget_s": 100}, "thorough": {"shards": 16, "budget_s": 360}}
-REQUIRE = {"alias-fill-in-results-read-back-by-name": 1000, "used-qubit-analyses-compared": 3000, "route:builder": 300, "judged-after-shifted-twin": 500, "route:text-native": 1000, "override-of-shadowed-name": 300, "route:build-lists": 300, "route:text": 300, "memo-hits": 500, "memo-hits-across-scopes": 50, "shadowing-programs": 300, "twin-programs": 300,
+REQUIRE = {"macro-bodies-analysed-in-call-site-scope": 300, "alias-fill-in-results-read-back-by-name": 1000, "used-qubit-analyses-compared": 3000, "route:builder": 300, "judged-after-shifted-twin": 500, "route:text-native": 1000, "override-of-shadowed-name": 300, "route:build-lists": 300, "route:text": 300, "memo-hits": 500, "memo-hits-across-scopes": 50, "shadowing-programs": 300, "twin-programs": 300,
            "metamorphic-pairs": 200}
 
 MEMO = {"hits": 0, "cross": 0, "calls": 0}
@@ -184,6 +184,21 @@ def judge(case):
                     pass
         elif od[0] == "exc":
             fails.append(("fill_in_map-crashed:" + od[1], {"error": od[2]}))
+    # (e) the statements of a macro body analysed in the scope of each call site (context = the call's arguments): a
+    #     parameter named like a let that bounds an alias binds the parameter, never the alias's bound
+    if not fails and route == "text-native" and m_full is not None:
+        from . import c13
+
+        st_e, s_e = X.setup(prog)
+        if st_e == "ok":
+            f_e, i_e = [], {}
+            try:
+                c13.call_site_scopes(s_e, s_e.core.fundamental()[0][1], f_e, i_e)
+            except (M.MeaningError, M.OracleError):
+                f_e = []
+            INFO["scopes"] = INFO.get("scopes", 0) + i_e.get("used_ctx", 0)
+            for clause_e, detail_e in f_e[:1]:
+                fails.append(("call-site-scope:" + clause_e, detail_e))
     # (b) let substitution with an override of a name that some macro parameter shadows
     ov = case.get("ov")
     if ov is None and not fails and case.get("no_ov_fill", True):
@@ -342,6 +357,7 @@ def process(ctx, case, seen):
     INFO.clear()
     st, fails, info = judge(case)
     rec.count("used-qubit-analyses-compared", INFO.get("used", 0))
+    rec.count("macro-bodies-analysed-in-call-site-scope", INFO.get("scopes", 0))
     rec.count("alias-fill-in-results-read-back-by-name", INFO.get("filled", 0))
     letnames = {s[1] for s in prog[1:] if s[0] in ("let", "register", "map")}
     shadow = any(s[0] == "macro" and set(s[2:-1]) & letnames for s in prog[1:])
